@@ -1572,12 +1572,12 @@ func (oc *obligCtx) paramErrNonNil(v ssa.Value, fn *ssa.Function) bool {
 	}
 	sites := 0
 	for _, e := range n.In {
+		if e.Caller.Func.Synthetic != "" {
+			// promotion wrappers of embedding types: an unexported method is in no interface of
+			// the module, so nothing calls them
+			continue
+		}
 		if e.Site == nil || e.Site.Common().StaticCallee() != fn {
-			if e.Caller.Func.Synthetic != "" {
-				if wn := oc.c.CHA().Nodes[e.Caller.Func]; wn == nil || len(wn.In) == 0 {
-					continue
-				}
-			}
 			return false
 		}
 		args := callArgs(e.Site.Common())
